@@ -1,16 +1,789 @@
-//! Suite C19 (stub — replaced when the property's harness is built).
-#![allow(dead_code, unused_imports)]
+//! Suite C19: command builders → bytes → parsers/accessors (all six sets), command sequences through
+//! `build_mac_commands`, and the text forms of identifiers and keys (real code).
+//!   C19 cmd <Set> <Variant> <calls>          calls = `-` | name=arg;name=arg…  (arg: decimal | x<hex> | <id>:x<hex>)
+//!        → r=<ok|ERR:E,…> bytes=<hex> parse=<the set's iterator over the built bytes, every accessor>
+//!   C19 cmd_digest <Set> <Variant> <template with {a} {b}> <na> <nb>
+//!   C19 seq <Set> <cap> <Variant>@<calls> …  → n=<len> bytes=<hex> parse=<…> | ERR:BufferTooShort
+//!   C19 text <Type> <wire hex>               → s=<to_string> back=<from_str(to_string) wire hex | ERR>
+//!   C19 text_digest <Type> <leading wire octets>   (all 256 values of the last octet)
+//!   C19 textparse <Type> <string>            → wire hex | ERR[:kind]
+#![allow(dead_code)]
+use crate::c03::{self, g, Toy};
 use crate::util::*;
+use core::str::FromStr;
+use lorawan::certification as cert;
+use lorawan::keys;
+use lorawan::maccommandcreator as mcc;
+use lorawan::maccommands::SerializableMacCommand;
+use lorawan::multicast as mcast;
+use lorawan::parser as p;
 
-pub fn eval(_op: &str) -> String {
-    "bad-op".into()
+#[derive(Clone, Debug)]
+pub enum A {
+    N(i64),
+    B(Vec<u8>),
+    Item(u8, Vec<u8>),
 }
 
-pub fn expand(_op: &str) -> Vec<String> {
-    vec![]
+fn parse_arg(s: &str) -> Option<A> {
+    if let Some(h) = s.strip_prefix('x') {
+        return Some(A::B(unhex(if h.is_empty() { "-" } else { h })));
+    }
+    if let Some((id, h)) = s.split_once(":x") {
+        return Some(A::Item(id.parse().ok()?, unhex(if h.is_empty() { "-" } else { h })));
+    }
+    s.parse::<i64>().ok().map(A::N)
 }
 
-pub fn run(_tier: &str, _seed: u64, dir: &str) {
-    let sink = Sink::new(dir);
-    sink.finish(dir, "stub", false, serde_json::json!({}));
+pub fn parse_calls(s: &str) -> Option<Vec<(String, A)>> {
+    if s == "-" {
+        return Some(vec![]);
+    }
+    s.split(';')
+        .map(|c| {
+            let (n, a) = c.split_once('=')?;
+            Some((n.to_string(), parse_arg(a)?))
+        })
+        .collect()
+}
+
+fn ok() -> Option<String> {
+    Some("ok".into())
+}
+fn res<T, E: core::fmt::Debug>(r: Result<T, E>) -> Option<String> {
+    Some(match r {
+        Ok(_) => "ok".into(),
+        Err(e) => format!("ERR:{:?}", e),
+    })
+}
+fn u8_(a: &A) -> Option<u8> {
+    match a {
+        A::N(v) if (0..=255).contains(v) => Some(*v as u8),
+        _ => None,
+    }
+}
+fn bool_(a: &A) -> Option<bool> {
+    match a {
+        A::N(0) => Some(false),
+        A::N(1) => Some(true),
+        _ => None,
+    }
+}
+fn u32_(a: &A) -> Option<u32> {
+    match a {
+        A::N(v) if (0..=u32::MAX as i64).contains(v) => Some(*v as u32),
+        _ => None,
+    }
+}
+fn arr<const N: usize>(a: &A) -> Option<[u8; N]> {
+    match a {
+        A::B(b) if b.len() == N => {
+            let mut o = [0u8; N];
+            o.copy_from_slice(b);
+            Some(o)
+        }
+        _ => None,
+    }
+}
+
+pub struct Built {
+    pub results: Vec<String>,
+    pub bytes: Vec<u8>,
+    pub cmd: Box<dyn SerializableMacCommand>,
+}
+
+/// create the creator, apply the calls, `build()`
+macro_rules! creator {
+    ($calls:expr, $t:ty, |$c:ident, $n:ident, $a:ident| $body:expr) => {{
+        let mut $c = <$t>::new();
+        let mut results = vec![];
+        for (name, arg) in $calls.iter() {
+            let $n: &str = name.as_str();
+            let $a: &A = arg;
+            let r: Option<String> = $body;
+            results.push(r?);
+        }
+        let bytes = $c.build().to_vec();
+        Some(Built { results, bytes, cmd: Box::new($c) })
+    }};
+}
+macro_rules! plain {
+    ($calls:expr, $t:ty) => {{
+        if !$calls.is_empty() {
+            return None;
+        }
+        let c = <$t>::new();
+        let bytes = c.build().to_vec();
+        Some(Built { results: vec![], bytes, cmd: Box::new(c) })
+    }};
+}
+
+pub fn make(set: &str, variant: &str, calls: &[(String, A)]) -> Option<Built> {
+    match (set, variant) {
+        // ---- LoRaWAN MAC, downlink
+        ("DownlinkMacCommand", "LinkCheckAns") => creator!(calls, mcc::LinkCheckAnsCreator, |c, n, a| match n {
+            "set_margin" => { c.set_margin(u8_(a)?); ok() }
+            "set_gateway_count" => { c.set_gateway_count(u8_(a)?); ok() }
+            _ => None,
+        }),
+        ("DownlinkMacCommand", "LinkADRReq") => creator!(calls, mcc::LinkADRReqCreator, |c, n, a| match n {
+            "set_data_rate" => res(c.set_data_rate(u8_(a)?)),
+            "set_tx_power" => res(c.set_tx_power(u8_(a)?)),
+            "set_channel_mask" => { c.set_channel_mask(arr::<2>(a)?); ok() }
+            "set_redundancy" => { c.set_redundancy(u8_(a)?); ok() }
+            _ => None,
+        }),
+        ("DownlinkMacCommand", "DutyCycleReq") => creator!(calls, mcc::DutyCycleReqCreator, |c, n, a| match n {
+            "set_max_duty_cycle" => res(c.set_max_duty_cycle(u8_(a)?)),
+            _ => None,
+        }),
+        ("DownlinkMacCommand", "RXParamSetupReq") => creator!(calls, mcc::RXParamSetupReqCreator, |c, n, a| match n {
+            "set_dl_settings" => { c.set_dl_settings(u8_(a)?); ok() }
+            "set_frequency" => { let f = arr::<3>(a)?; c.set_frequency(&f); ok() }
+            _ => None,
+        }),
+        ("DownlinkMacCommand", "DevStatusReq") => plain!(calls, mcc::DevStatusReqCreator),
+        ("DownlinkMacCommand", "NewChannelReq") => creator!(calls, mcc::NewChannelReqCreator, |c, n, a| match n {
+            "set_channel_index" => { c.set_channel_index(u8_(a)?); ok() }
+            "set_frequency" => { let f = arr::<3>(a)?; c.set_frequency(&f); ok() }
+            "set_data_rate_range" => { c.set_data_rate_range(u8_(a)?); ok() }
+            _ => None,
+        }),
+        ("DownlinkMacCommand", "RXTimingSetupReq") => creator!(calls, mcc::RXTimingSetupReqCreator, |c, n, a| match n {
+            "set_delay" => res(c.set_delay(u8_(a)?)),
+            _ => None,
+        }),
+        ("DownlinkMacCommand", "TXParamSetupReq") => creator!(calls, mcc::TXParamSetupReqCreator, |c, n, a| match n {
+            "set_downlink_dwell_time" => { c.set_downlink_dwell_time(bool_(a)?); ok() }
+            "set_uplink_dwell_time" => { c.set_uplink_dwell_time(bool_(a)?); ok() }
+            "set_max_eirp" => res(c.set_max_eirp(u8_(a)?)),
+            _ => None,
+        }),
+        ("DownlinkMacCommand", "DlChannelReq") => creator!(calls, mcc::DlChannelReqCreator, |c, n, a| match n {
+            "set_channel_index" => { c.set_channel_index(u8_(a)?); ok() }
+            "set_frequency" => { let f = arr::<3>(a)?; c.set_frequency(&f); ok() }
+            _ => None,
+        }),
+        ("DownlinkMacCommand", "DeviceTimeAns") => creator!(calls, mcc::DeviceTimeAnsCreator, |c, n, a| match n {
+            "set_seconds" => { c.set_seconds(u32_(a)?); ok() }
+            "set_nano_seconds" => res(c.set_nano_seconds(u32_(a)?)),
+            _ => None,
+        }),
+        // ---- LoRaWAN MAC, uplink
+        ("UplinkMacCommand", "LinkCheckReq") => plain!(calls, mcc::LinkCheckReqCreator),
+        ("UplinkMacCommand", "LinkADRAns") => creator!(calls, mcc::LinkADRAnsCreator, |c, n, a| match n {
+            "set_channel_mask_ack" => { c.set_channel_mask_ack(bool_(a)?); ok() }
+            "set_data_rate_ack" => { c.set_data_rate_ack(bool_(a)?); ok() }
+            "set_tx_power_ack" => { c.set_tx_power_ack(bool_(a)?); ok() }
+            _ => None,
+        }),
+        ("UplinkMacCommand", "DutyCycleAns") => plain!(calls, mcc::DutyCycleAnsCreator),
+        ("UplinkMacCommand", "RXParamSetupAns") => creator!(calls, mcc::RXParamSetupAnsCreator, |c, n, a| match n {
+            "set_channel_ack" => { c.set_channel_ack(bool_(a)?); ok() }
+            "set_rx2_data_rate_ack" => { c.set_rx2_data_rate_ack(bool_(a)?); ok() }
+            "set_rx1_data_rate_offset_ack" => { c.set_rx1_data_rate_offset_ack(bool_(a)?); ok() }
+            _ => None,
+        }),
+        ("UplinkMacCommand", "DevStatusAns") => creator!(calls, mcc::DevStatusAnsCreator, |c, n, a| match n {
+            "set_battery" => { c.set_battery(u8_(a)?); ok() }
+            "set_margin" => match a { A::N(v) if (-128..=127).contains(v) => res(c.set_margin(*v as i8)), _ => None },
+            _ => None,
+        }),
+        ("UplinkMacCommand", "NewChannelAns") => creator!(calls, mcc::NewChannelAnsCreator, |c, n, a| match n {
+            "set_channel_frequency_ack" => { c.set_channel_frequency_ack(bool_(a)?); ok() }
+            "set_data_rate_range_ack" => { c.set_data_rate_range_ack(bool_(a)?); ok() }
+            _ => None,
+        }),
+        ("UplinkMacCommand", "RXTimingSetupAns") => plain!(calls, mcc::RXTimingSetupAnsCreator),
+        ("UplinkMacCommand", "TXParamSetupAns") => plain!(calls, mcc::TXParamSetupAnsCreator),
+        ("UplinkMacCommand", "DlChannelAns") => creator!(calls, mcc::DlChannelAnsCreator, |c, n, a| match n {
+            "set_channel_frequency_ack" => { c.set_channel_frequency_ack(bool_(a)?); ok() }
+            "set_uplink_frequency_exists_ack" => { c.set_uplink_frequency_exists_ack(bool_(a)?); ok() }
+            _ => None,
+        }),
+        ("UplinkMacCommand", "DeviceTimeReq") => plain!(calls, mcc::DeviceTimeReqCreator),
+        // ---- certification (TS009)
+        ("DownlinkDUTCommand", "DutResetReq") => plain!(calls, cert::DutResetReqCreator),
+        ("DownlinkDUTCommand", "DutJoinReq") => plain!(calls, cert::DutJoinReqCreator),
+        ("DownlinkDUTCommand", "AdrBitChangeReq") => plain!(calls, cert::AdrBitChangeReqCreator),
+        ("DownlinkDUTCommand", "TxPeriodicityChangeReq") => plain!(calls, cert::TxPeriodicityChangeReqCreator),
+        ("DownlinkDUTCommand", "RxAppCntReq") => plain!(calls, cert::RxAppCntReqCreator),
+        ("DownlinkDUTCommand", "LinkCheckReq") => plain!(calls, cert::LinkCheckReqCreator),
+        ("DownlinkDUTCommand", "DutVersionsReq") => plain!(calls, cert::DutVersionsReqCreator),
+        ("UplinkDUTCommand", "EchoIncPayloadAns") => creator!(calls, cert::EchoIncPayloadAnsCreator, |c, n, a| match (n, a) {
+            ("payload", A::B(b)) => { c.payload(b); ok() }
+            _ => None,
+        }),
+        ("UplinkDUTCommand", "RxAppCntAns") => creator!(calls, cert::RxAppCntAnsCreator, |c, n, a| match (n, a) {
+            ("set_rx_app_cnt", A::N(v)) if (0..=65535).contains(v) => { c.set_rx_app_cnt(*v as u16); ok() }
+            _ => None,
+        }),
+        ("UplinkDUTCommand", "DutVersionsAns") => creator!(calls, cert::DutVersionsAnsCreator, |c, n, a| match n {
+            "set_versions_raw" => { c.set_versions_raw(arr::<12>(a)?); ok() }
+            _ => None,
+        }),
+        // ---- remote multicast setup (TS005)
+        ("DownlinkRemoteSetup", "PackageVersionReq") => plain!(calls, mcast::PackageVersionReqCreator),
+        ("DownlinkRemoteSetup", "McGroupStatusReq") => creator!(calls, mcast::McGroupStatusReqCreator, |c, n, a| match n {
+            "req_group_mask" => { c.req_group_mask(u8_(a)?); ok() }
+            "req_group" => { c.req_group(u8_(a)?); ok() }
+            _ => None,
+        }),
+        ("DownlinkRemoteSetup", "McGroupSetupReq") => creator!(calls, mcast::McGroupSetupReqCreator, |c, n, a| match n {
+            "mc_group_id_header" => { c.mc_group_id_header(u8_(a)?); ok() }
+            "mc_addr" => { c.mc_addr(&p::McAddr::from_wire_bytes(arr::<4>(a)?)); ok() }
+            "mc_key" => { c.mc_key(&Toy, &keys::McKey::from(arr::<16>(a)?)); ok() }
+            "min_mc_fcount" => { c.min_mc_fcount(u32_(a)?); ok() }
+            "max_mc_fcount" => { c.max_mc_fcount(u32_(a)?); ok() }
+            _ => None,
+        }),
+        ("DownlinkRemoteSetup", "McGroupDeleteReq") => creator!(calls, mcast::McGroupDeleteReqCreator, |c, n, a| match n {
+            "mc_group_id_header" => { c.mc_group_id_header(u8_(a)?); ok() }
+            _ => None,
+        }),
+        ("DownlinkRemoteSetup", "McClassCSessionReq") => plain!(calls, mcast::McClassCSessionReqCreator),
+        ("DownlinkRemoteSetup", "McClassBSessionReq") => plain!(calls, mcast::McClassBSessionReqCreator),
+        ("UplinkRemoteSetup", "PackageVersionAns") => creator!(calls, mcast::PackageVersionAnsCreator, |c, n, a| match n {
+            "package_identifier" => { c.package_identifier(u8_(a)?); ok() }
+            "package_version" => { c.package_version(u8_(a)?); ok() }
+            _ => None,
+        }),
+        ("UplinkRemoteSetup", "McGroupStatusAns") => creator!(calls, mcast::McGroupStatusAnsCreator, |c, n, a| match (n, a) {
+            ("nb_total_groups", a) => { c.nb_total_groups(u8_(a)?); ok() }
+            ("push", A::Item(id, addr)) if addr.len() == 4 => {
+                let mut w = [0u8; 4];
+                w.copy_from_slice(addr);
+                res(c.push(*id, p::McAddr::from_wire_bytes(w)).map(|_| ()))
+            }
+            _ => None,
+        }),
+        ("UplinkRemoteSetup", "McGroupSetupAns") => creator!(calls, mcast::McGroupSetupAnsCreator, |c, n, a| match n {
+            "mc_group_id_header" => { c.mc_group_id_header(u8_(a)?); ok() }
+            _ => None,
+        }),
+        ("UplinkRemoteSetup", "McGroupDeleteAns") => creator!(calls, mcast::McGroupDeleteAnsCreator, |c, n, a| match n {
+            "mc_group_id_header" => { c.mc_group_id_header(u8_(a)?); ok() }
+            "mc_group_undefined" => { c.mc_group_undefined(bool_(a)?); ok() }
+            _ => None,
+        }),
+        ("UplinkRemoteSetup", "McClassCSessionAns") => plain!(calls, mcast::McClassCSessionAnsCreator),
+        ("UplinkRemoteSetup", "McClassBSessionAns") => plain!(calls, mcast::McClassBSessionAnsCreator),
+        _ => None,
+    }
+}
+
+fn show_results(r: &[String]) -> String {
+    if r.is_empty() {
+        "-".into()
+    } else {
+        r.join(",")
+    }
+}
+
+pub fn cmd(set: &str, variant: &str, calls: &str) -> String {
+    let Some(calls) = parse_calls(calls) else { return "bad-op".into() };
+    let set_s = set.to_string();
+    let variant_s = variant.to_string();
+    g(move || match make(&set_s, &variant_s, &calls) {
+        None => "bad-op".into(),
+        Some(b) => {
+            // the trait view of the creator must agree with build()
+            let mut via_trait = vec![b.cmd.cid()];
+            via_trait.extend_from_slice(b.cmd.payload_bytes());
+            let consistent = via_trait == b.bytes && b.cmd.payload_len() + 1 == b.bytes.len();
+            format!("r={} bytes={} parse={}{}", show_results(&b.results), hex(&b.bytes), c03::iter(&set_s, &b.bytes), if consistent { "" } else { " TRAIT-MISMATCH" })
+        }
+    })
+}
+
+pub fn seq(set: &str, cap: usize, words: &[&str]) -> String {
+    let set_s = set.to_string();
+    let words: Vec<String> = words.iter().map(|s| s.to_string()).collect();
+    g(move || {
+        let mut built = vec![];
+        for w in &words {
+            let Some((v, cs)) = w.split_once('@') else { return "bad-op".into() };
+            let Some(calls) = parse_calls(cs) else { return "bad-op".into() };
+            let Some(b) = make(&set_s, v, &calls) else { return "bad-op".into() };
+            built.push(b);
+        }
+        let refs: Vec<&dyn SerializableMacCommand> = built.iter().map(|b| b.cmd.as_ref()).collect();
+        let mut buf = vec![0u8; cap];
+        match mcc::build_mac_commands(&refs, &mut buf[..]) {
+            Err(e) => format!("ERR:{:?}", e),
+            Ok(n) => {
+                if n > buf.len() {
+                    return "OVERRUN".into();
+                }
+                let len_ok = lorawan::maccommands::mac_commands_len(&refs) == n;
+                format!("n={} bytes={} parse={}{}", n, hex(&buf[..n]), c03::iter(&set_s, &buf[..n]), if len_ok { "" } else { " LEN-MISMATCH" })
+            }
+        }
+    })
+}
+
+// ------------------------------------------------------------------------------------------------ text forms
+pub const TEXT_TYPES: [(&str, usize); 18] = [
+    ("DevAddr", 4),
+    ("McAddr", 4),
+    ("PDevEui", 8),
+    ("JoinEui", 8),
+    ("DevNonce", 2),
+    ("JoinNonce", 3),
+    ("NetId", 3),
+    ("AppKey", 16),
+    ("NwkSKey", 16),
+    ("AppSKey", 16),
+    ("McRootKey", 16),
+    ("McKEKey", 16),
+    ("McNetSKey", 16),
+    ("McAppSKey", 16),
+    ("GenAppKey", 16),
+    ("McKey", 16),
+    ("KDevEui", 8),
+    ("AppEui", 8),
+];
+
+macro_rules! text_newtype {
+    ($t:ty, $n:expr, $op:expr, $arg:expr) => {{
+        match $op {
+            "text" => {
+                let Some(w) = arr::<$n>(&A::B(unhex($arg))) else { return "bad-op".into() };
+                let v = <$t>::from_wire_bytes(w);
+                let s = v.to_string();
+                let back = match <$t>::from_str(&s) {
+                    Ok(x) => hex(x.as_wire_bytes()),
+                    Err(_) => "ERR".into(),
+                };
+                format!("s={} back={}", s, back)
+            }
+            _ => match <$t>::from_str(if $arg == "-" { "" } else { $arg }) {
+                Ok(x) => hex(x.as_wire_bytes()),
+                Err(_) => "ERR".into(),
+            },
+        }
+    }};
+}
+macro_rules! text_key {
+    ($t:ty, $n:expr, $op:expr, $arg:expr) => {{
+        match $op {
+            "text" => {
+                let Some(w) = arr::<$n>(&A::B(unhex($arg))) else { return "bad-op".into() };
+                let v = <$t>::from(w);
+                let s = v.to_string();
+                let back = match <$t>::from_str(&s) {
+                    Ok(x) => hex(x.as_ref()),
+                    Err(e) => format!("ERR:{}", hex_err(e)),
+                };
+                format!("s={} back={}", s, back)
+            }
+            _ => match <$t>::from_str(if $arg == "-" { "" } else { $arg }) {
+                Ok(x) => hex(x.as_ref()),
+                Err(e) => format!("ERR:{}", hex_err(e)),
+            },
+        }
+    }};
+}
+
+fn hex_err(e: lorawan::string::FromHexError) -> &'static str {
+    use lorawan::string::FromHexError::*;
+    match e {
+        OddLength => "OddLength",
+        InvalidStringLength => "InvalidStringLength",
+        InvalidHexCharacter { .. } => "InvalidHexCharacter",
+    }
+}
+
+/// op = "text" (arg = wire hex) or "textparse" (arg = string)
+pub fn text(op: &str, ty: &str, arg: &str) -> String {
+    let (op, ty, arg) = (op.to_string(), ty.to_string(), arg.to_string());
+    g(move || {
+        let (op, arg) = (op.as_str(), arg.as_str());
+        match ty.as_str() {
+            "DevAddr" => text_newtype!(p::DevAddr, 4, op, arg),
+            "McAddr" => text_newtype!(p::McAddr, 4, op, arg),
+            "PDevEui" => text_newtype!(p::DevEui, 8, op, arg),
+            "JoinEui" => text_newtype!(p::JoinEui, 8, op, arg),
+            "DevNonce" => text_newtype!(p::DevNonce, 2, op, arg),
+            "JoinNonce" => text_newtype!(p::JoinNonce, 3, op, arg),
+            "NetId" => text_newtype!(p::NetId, 3, op, arg),
+            "AppKey" => text_key!(keys::AppKey, 16, op, arg),
+            "NwkSKey" => text_key!(keys::NwkSKey, 16, op, arg),
+            "AppSKey" => text_key!(keys::AppSKey, 16, op, arg),
+            "McRootKey" => text_key!(keys::McRootKey, 16, op, arg),
+            "McKEKey" => text_key!(keys::McKEKey, 16, op, arg),
+            "McNetSKey" => text_key!(keys::McNetSKey, 16, op, arg),
+            "McAppSKey" => text_key!(keys::McAppSKey, 16, op, arg),
+            "GenAppKey" => text_key!(keys::GenAppKey, 16, op, arg),
+            "McKey" => text_key!(keys::McKey, 16, op, arg),
+            "KDevEui" => text_key!(keys::DevEui, 8, op, arg),
+            "AppEui" => text_key!(keys::AppEui, 8, op, arg),
+            _ => "bad-op".into(),
+        }
+    })
+}
+
+fn fnv_line(h: &mut Fnv, s: &str) {
+    for b in s.bytes() {
+        h.byte(b);
+    }
+    h.byte(10);
+}
+
+fn subst(t: &str, a: u64, b: u64) -> String {
+    t.replace("{a}", &a.to_string()).replace("{b}", &b.to_string())
+}
+
+pub fn eval(op: &str) -> String {
+    let w: Vec<&str> = op.split_whitespace().collect();
+    match w.as_slice() {
+        ["C19", "cmd", set, variant, calls] => cmd(set, variant, calls),
+        ["C19", "cmd_digest", set, variant, tmpl, na, nb] => {
+            let (Ok(na), Ok(nb)) = (na.parse::<u64>(), nb.parse::<u64>()) else { return "bad-op".into() };
+            let mut h = Fnv::new();
+            for a in 0..na {
+                for b in 0..nb {
+                    fnv_line(&mut h, &cmd(set, variant, &subst(tmpl, a, b)));
+                }
+            }
+            format!("{:016x}", h.0)
+        }
+        ["C19", "seq", set, cap, rest @ ..] => match cap.parse::<usize>() {
+            Ok(cap) => seq(set, cap, rest),
+            Err(_) => "bad-op".into(),
+        },
+        ["C19", "text", ty, h] => text("text", ty, h),
+        ["C19", "text_digest", ty, pre] => {
+            let pre = unhex(pre);
+            let mut h = Fnv::new();
+            for x in 0..=255u8 {
+                let mut v = pre.clone();
+                v.push(x);
+                fnv_line(&mut h, &text("text", ty, &hex(&v)));
+            }
+            format!("{:016x}", h.0)
+        }
+        ["C19", "textparse", ty, s] => text("textparse", ty, s),
+        _ => "bad-op".into(),
+    }
+}
+
+pub fn expand(op: &str) -> Vec<String> {
+    let w: Vec<&str> = op.split_whitespace().collect();
+    let mut out = vec![];
+    match w.as_slice() {
+        ["C19", "cmd_digest", set, variant, tmpl, na, nb] => {
+            let (na, nb) = (na.parse::<u64>().unwrap_or(0), nb.parse::<u64>().unwrap_or(0));
+            for a in 0..na {
+                for b in 0..nb {
+                    out.push(format!("C19 cmd {} {} {}", set, variant, subst(tmpl, a, b)));
+                }
+            }
+        }
+        ["C19", "text_digest", ty, pre] => {
+            let pre = unhex(pre);
+            for x in 0..=255u8 {
+                let mut v = pre.clone();
+                v.push(x);
+                out.push(format!("C19 text {} {}", ty, hex(&v)));
+            }
+        }
+        _ => {}
+    }
+    out
+}
+
+// ------------------------------------------------------------------------------------------------ generation
+
+#[derive(Clone, Copy, PartialEq)]
+pub enum K {
+    U8,
+    Bool,
+    I8,
+    U16,
+    U32,
+    Bytes(usize),
+    /// to-the-end octet string (echo payload)
+    Var,
+    /// push(id, addr)
+    Item,
+}
+
+/// every (set, variant, [setter, kind]) — the harness' own catalogue, used only to generate calls
+pub fn setters() -> Vec<(&'static str, &'static str, Vec<(&'static str, K)>)> {
+    use K::*;
+    vec![
+        ("DownlinkMacCommand", "LinkCheckAns", vec![("set_margin", U8), ("set_gateway_count", U8)]),
+        ("DownlinkMacCommand", "LinkADRReq", vec![("set_data_rate", U8), ("set_tx_power", U8), ("set_channel_mask", Bytes(2)), ("set_redundancy", U8)]),
+        ("DownlinkMacCommand", "DutyCycleReq", vec![("set_max_duty_cycle", U8)]),
+        ("DownlinkMacCommand", "RXParamSetupReq", vec![("set_dl_settings", U8), ("set_frequency", Bytes(3))]),
+        ("DownlinkMacCommand", "DevStatusReq", vec![]),
+        ("DownlinkMacCommand", "NewChannelReq", vec![("set_channel_index", U8), ("set_frequency", Bytes(3)), ("set_data_rate_range", U8)]),
+        ("DownlinkMacCommand", "RXTimingSetupReq", vec![("set_delay", U8)]),
+        ("DownlinkMacCommand", "TXParamSetupReq", vec![("set_downlink_dwell_time", Bool), ("set_uplink_dwell_time", Bool), ("set_max_eirp", U8)]),
+        ("DownlinkMacCommand", "DlChannelReq", vec![("set_channel_index", U8), ("set_frequency", Bytes(3))]),
+        ("DownlinkMacCommand", "DeviceTimeAns", vec![("set_seconds", U32), ("set_nano_seconds", U32)]),
+        ("UplinkMacCommand", "LinkCheckReq", vec![]),
+        ("UplinkMacCommand", "LinkADRAns", vec![("set_channel_mask_ack", Bool), ("set_data_rate_ack", Bool), ("set_tx_power_ack", Bool)]),
+        ("UplinkMacCommand", "DutyCycleAns", vec![]),
+        ("UplinkMacCommand", "RXParamSetupAns", vec![("set_channel_ack", Bool), ("set_rx2_data_rate_ack", Bool), ("set_rx1_data_rate_offset_ack", Bool)]),
+        ("UplinkMacCommand", "DevStatusAns", vec![("set_battery", U8), ("set_margin", I8)]),
+        ("UplinkMacCommand", "NewChannelAns", vec![("set_channel_frequency_ack", Bool), ("set_data_rate_range_ack", Bool)]),
+        ("UplinkMacCommand", "RXTimingSetupAns", vec![]),
+        ("UplinkMacCommand", "TXParamSetupAns", vec![]),
+        ("UplinkMacCommand", "DlChannelAns", vec![("set_channel_frequency_ack", Bool), ("set_uplink_frequency_exists_ack", Bool)]),
+        ("UplinkMacCommand", "DeviceTimeReq", vec![]),
+        ("DownlinkDUTCommand", "DutResetReq", vec![]),
+        ("DownlinkDUTCommand", "DutJoinReq", vec![]),
+        ("DownlinkDUTCommand", "AdrBitChangeReq", vec![]),
+        ("DownlinkDUTCommand", "TxPeriodicityChangeReq", vec![]),
+        ("DownlinkDUTCommand", "RxAppCntReq", vec![]),
+        ("DownlinkDUTCommand", "LinkCheckReq", vec![]),
+        ("DownlinkDUTCommand", "DutVersionsReq", vec![]),
+        ("UplinkDUTCommand", "EchoIncPayloadAns", vec![("payload", Var)]),
+        ("UplinkDUTCommand", "RxAppCntAns", vec![("set_rx_app_cnt", U16)]),
+        ("UplinkDUTCommand", "DutVersionsAns", vec![("set_versions_raw", Bytes(12))]),
+        ("DownlinkRemoteSetup", "PackageVersionReq", vec![]),
+        ("DownlinkRemoteSetup", "McGroupStatusReq", vec![("req_group_mask", U8), ("req_group", U8)]),
+        ("DownlinkRemoteSetup", "McGroupSetupReq", vec![("mc_group_id_header", U8), ("mc_addr", Bytes(4)), ("mc_key", Bytes(16)), ("min_mc_fcount", U32), ("max_mc_fcount", U32)]),
+        ("DownlinkRemoteSetup", "McGroupDeleteReq", vec![("mc_group_id_header", U8)]),
+        ("DownlinkRemoteSetup", "McClassCSessionReq", vec![]),
+        ("DownlinkRemoteSetup", "McClassBSessionReq", vec![]),
+        ("UplinkRemoteSetup", "PackageVersionAns", vec![("package_identifier", U8), ("package_version", U8)]),
+        ("UplinkRemoteSetup", "McGroupStatusAns", vec![("nb_total_groups", U8), ("push", Item)]),
+        ("UplinkRemoteSetup", "McGroupSetupAns", vec![("mc_group_id_header", U8)]),
+        ("UplinkRemoteSetup", "McGroupDeleteAns", vec![("mc_group_id_header", U8), ("mc_group_undefined", Bool)]),
+        ("UplinkRemoteSetup", "McClassCSessionAns", vec![]),
+        ("UplinkRemoteSetup", "McClassBSessionAns", vec![]),
+    ]
+}
+
+/// a 32-bit value that reads the same in both byte orders (used wherever `set_seconds` must not trip the known finding)
+fn palindrome32(rng: &mut Rng) -> u32 {
+    let a = rng.next() as u8 as u32;
+    let b = rng.next() as u8 as u32;
+    a | (b << 8) | (b << 16) | (a << 24)
+}
+
+fn rand_arg(rng: &mut Rng, variant: &str, setter: &str, k: K) -> String {
+    match k {
+        K::U8 => match rng.below(4) {
+            0 => rng.below(17).to_string(),
+            1 => rng.pick(&[0u32, 1, 3, 4, 7, 8, 15, 16, 31, 63, 64, 127, 128, 254, 255]).to_string(),
+            _ => rng.below(256).to_string(),
+        },
+        K::Bool => rng.below(2).to_string(),
+        K::I8 => match rng.below(3) {
+            0 => rng.range(-34, 33).to_string(),
+            _ => rng.range(-128, 127).to_string(),
+        },
+        K::U16 => rng.pick(&[0u64, 1, 255, 256, 0x1234, 0xfffe, 0xffff, rng.0 & 0xffff]).to_string(),
+        K::U32 => {
+            if variant == "DeviceTimeAns" && setter == "set_seconds" {
+                palindrome32(rng).to_string()
+            } else if setter == "set_nano_seconds" {
+                match rng.below(3) {
+                    0 => rng.pick(&[0u64, 1, 3906249, 3906250, 3906251, 999_999_999, 1_000_000_000, 1_000_000_001, 996_093_750, 4_294_967_295]).to_string(),
+                    _ => rng.below(1_100_000_000).to_string(),
+                }
+            } else {
+                match rng.below(3) {
+                    0 => rng.pick(&[0u64, 1, 0xff, 0x100, 0xffff, 0x10000, 0x01020304, 0x7fffffff, 0x80000000, 0xfffffffe, 0xffffffff]).to_string(),
+                    _ => (rng.next() as u32).to_string(),
+                }
+            }
+        }
+        K::Bytes(n) => format!("x{}", { let h = hex(&rng.bytes(n)); if h == "-" { String::new() } else { h } }),
+        K::Var => {
+            let n = match rng.below(4) {
+                0 => *rng.pick(&[0usize, 1, 2, 240, 241, 242, 255, 260]),
+                _ => rng.below(30) as usize,
+            };
+            let h = hex(&rng.bytes(n));
+            format!("x{}", if h == "-" { String::new() } else { h })
+        }
+        K::Item => format!("{}:x{}", match rng.below(6) { 0 => rng.below(256), 1 => 4 + rng.below(4), _ => rng.below(4) }, hex(&rng.bytes(4))),
+    }
+}
+
+fn rand_calls(rng: &mut Rng, variant: &str, ss: &[(&'static str, K)], max: u64) -> String {
+    if ss.is_empty() {
+        return "-".into();
+    }
+    let n = rng.below(max + 1);
+    if n == 0 {
+        return "-".into();
+    }
+    (0..n)
+        .map(|_| {
+            let (s, k) = *rng.pick(ss);
+            format!("{}={}", s, rand_arg(rng, variant, s, k))
+        })
+        .collect::<Vec<_>>()
+        .join(";")
+}
+
+fn class_of(ans: &str) -> &'static str {
+    if ans.contains("PANIC") {
+        "panic"
+    } else if ans.contains("ERR:BufferTooShort") {
+        "seq-refused"
+    } else if ans.contains("ERR:") && ans.starts_with("r=") {
+        "with-refusal"
+    } else {
+        "accepted"
+    }
+}
+
+pub fn run(tier: &str, seed: u64, dir: &str) {
+    let mut rng = Rng::new(seed);
+    let mut sink = Sink::new(dir);
+    let thorough = tier == "thorough";
+    let cat = setters();
+    // 1. every command, fresh creator
+    for (set, v, _) in &cat {
+        let op = format!("C19 cmd {} {} -", set, v);
+        sink.case(&op, &eval(&op), "fresh", true);
+    }
+    // 2. every setter alone: exhaustive for fields up to 16 bits, boundary + random for wider ones
+    for (set, v, ss) in &cat {
+        for (s, k) in ss {
+            let mut one = |arg: String, class: &str, sink: &mut Sink| {
+                let op = format!("C19 cmd {} {} {}={}", set, v, s, arg);
+                let a = eval(&op);
+                sink.case(&op, &a, class, true);
+            };
+            match k {
+                K::U8 => (0..=255).for_each(|x: u32| one(x.to_string(), "single-u8-exhaustive", &mut sink)),
+                K::Bool => (0..=1).for_each(|x: u32| one(x.to_string(), "single-bool-exhaustive", &mut sink)),
+                K::I8 => (-128..=127).for_each(|x: i32| one(x.to_string(), "single-i8-exhaustive", &mut sink)),
+                K::U16 => (0..=65535).for_each(|x: u32| one(x.to_string(), "single-u16-exhaustive", &mut sink)),
+                K::Bytes(2) => (0..=65535u32).for_each(|x| one(format!("x{:02x}{:02x}", x & 0xff, x >> 8), "single-u16-exhaustive", &mut sink)),
+                _ => {
+                    let n = if thorough { 20_000 } else { 1_500 };
+                    for _ in 0..n {
+                        let mut arg = rand_arg(&mut rng, v, s, *k);
+                        if *v == "DeviceTimeAns" && *s == "set_seconds" {
+                            // the dedicated ops on which the known finding is allowed to show
+                            arg = match rng.below(3) {
+                                0 => rng.pick(&[0u64, 1, 255, 256, 65535, 65536, 0x01020304, 0x04030201, 123456, 0x7fffffff, 0x80000000, 0xffffffff]).to_string(),
+                                _ => (rng.next() as u32).to_string(),
+                            };
+                        }
+                        one(arg, "single-wide", &mut sink);
+                    }
+                }
+            }
+        }
+    }
+    // 3. pairs of setters of one command, both orders, with a re-set: digest blocks over 0..32 × 0..32 (bools 0..2)
+    for (set, v, ss) in &cat {
+        for (s1, k1) in ss {
+            for (s2, k2) in ss {
+                let small = |k: &K| matches!(k, K::U8 | K::Bool);
+                if !small(k1) || !small(k2) {
+                    continue;
+                }
+                let n1 = if *k1 == K::Bool { 2 } else { 32 };
+                let n2 = if *k2 == K::Bool { 2 } else { 32 };
+                let tmpl = if s1 == s2 { format!("{}={{a}};{}={{b}}", s1, s2) } else { format!("{}={{a}};{}={{b}};{}={{b}}", s1, s2, s1) };
+                // when s1 is a bool its re-set value must stay 0/1
+                let tmpl = if s1 != s2 && *k1 == K::Bool && *k2 != K::Bool { format!("{}={{a}};{}={{b}};{}={{a}}", s1, s2, s1) } else { tmpl };
+                let op = format!("C19 cmd_digest {} {} {} {} {}", set, v, tmpl, n1, n2);
+                sink.case_w(&op, &eval(&op), "pair-digest", true, (n1 * n2) as u64);
+            }
+        }
+    }
+    // 4. random setter sequences per command
+    let n_rand = if thorough { 200_000 } else { 25_000 };
+    for _ in 0..n_rand {
+        let (set, v, ss) = rng.pick(&cat).clone();
+        if ss.is_empty() {
+            continue;
+        }
+        let calls = rand_calls(&mut rng, v, &ss, 6);
+        let op = format!("C19 cmd {} {} {}", set, v, calls);
+        let a = eval(&op);
+        sink.case(&op, &a, &format!("calls-{}", class_of(&a)), calls != "-");
+    }
+    // 5. sequences of commands through build_mac_commands
+    let n_seq = if thorough { 100_000 } else { 12_000 };
+    for _ in 0..n_seq {
+        let set = *rng.pick(&c03::SETS);
+        let of_set: Vec<_> = cat.iter().filter(|c| c.0 == set).collect();
+        let n = 1 + rng.below(8) as usize;
+        let mut words = vec![];
+        let mut total = 0usize;
+        for _ in 0..n {
+            let (_, v, ss) = *rng.pick(&of_set);
+            let calls = rand_calls(&mut rng, v, ss, 3);
+            // length of this command (for choosing interesting capacities): ask the real builder
+            if let Some(b) = parse_calls(&calls).and_then(|c| guarded(std::panic::AssertUnwindSafe(|| make(set, v, &c).map(|b| b.bytes.len()))).flatten()) {
+                total += b;
+            }
+            words.push(format!("{}@{}", v, calls));
+        }
+        let cap = match rng.below(6) {
+            0 => total.saturating_sub(1),
+            1 => total,
+            2 => total + 1,
+            3 => 15,
+            4 => 0,
+            _ => 255,
+        };
+        let op = format!("C19 seq {} {} {}", set, cap, words.join(" "));
+        let a = eval(&op);
+        sink.case(&op, &a, &format!("seq-{}", class_of(&a)), true);
+    }
+    // 6. text forms: all 2^16 DevNonces (digest per high wire octet... the free octet is the last wire octet),
+    //    random values of every type, digest blocks with random prefixes, malformed / non-canonical strings
+    for b0 in 0..=255u8 {
+        let op = format!("C19 text_digest DevNonce {:02x}", b0);
+        sink.case_w(&op, &eval(&op), "text-devnonce-exhaustive", true, 256);
+    }
+    let n_text = if thorough { 20_000 } else { 1_500 };
+    for (ty, n) in TEXT_TYPES {
+        for i in 0..n_text {
+            let v = match i {
+                0 => vec![0u8; n],
+                1 => vec![0xffu8; n],
+                2 => (0..n).map(|j| j as u8).collect(),
+                3 => (0..n).map(|j| (0x10 * (j + 1)) as u8).collect(),
+                4 => { let mut v = vec![0u8; n]; v[0] = 1; v }
+                5 => { let mut v = vec![0u8; n]; v[n - 1] = 1; v }
+                6 => { let mut v = vec![0u8; n]; v[n - 1] = 0x0a; v }
+                _ => rng.bytes(n),
+            };
+            let op = format!("C19 text {} {}", ty, hex(&v));
+            sink.case(&op, &eval(&op), "text-roundtrip", true);
+        }
+        for _ in 0..(if thorough { 64 } else { 8 }) {
+            let op = format!("C19 text_digest {} {}", ty, hex(&rng.bytes(n - 1)));
+            sink.case_w(&op, &eval(&op), "text-digest", true, 256);
+        }
+        // strings
+        for _ in 0..(if thorough { 2000 } else { 200 }) {
+            let v = rng.bytes(n);
+            let canon: String = v.iter().map(|b| format!("{:02x}", b)).collect();
+            let s = match rng.below(7) {
+                0 => canon.to_uppercase(),
+                1 => canon.chars().enumerate().map(|(i, c)| if i % 3 == 0 { c.to_ascii_uppercase() } else { c }).collect(),
+                2 => canon[1..].to_string(),
+                3 => format!("{}0", canon),
+                4 => format!("+{}", &canon[1..]),
+                5 => { let mut c: Vec<char> = canon.chars().collect(); let i = rng.below(c.len() as u64) as usize; c[i] = *rng.pick(&['g', 'z', '-', '_', 'G', '.']); c.into_iter().collect() }
+                _ => canon.clone(),
+            };
+            let s = if s.is_empty() { "-".to_string() } else { s };
+            let op = format!("C19 textparse {} {}", ty, s);
+            let a = eval(&op);
+            sink.case(&op, &a, if a.starts_with("ERR") { "textparse-refused" } else { "textparse-ok" }, true);
+        }
+    }
+    sink.finish(
+        dir,
+        "Builders of all six command sets (every creator the crate offers): fresh creator; every setter alone, exhaustive for u8/bool/i8/u16 and 2-octet arguments (all 2^16), boundary + seeded random for wider ones; every ordered pair of small setters of a command incl. a re-set as digest blocks over 0..32 x 0..32 (in- and out-of-range values); seeded random call sequences; seeded command sequences through build_mac_commands with capacities around the exact length; each answer = setter results, built bytes, and the set's real iterator + every accessor over those bytes. Text forms: all 2^16 DevNonces (digest), seeded values and digest blocks for all 18 identifier/key types, non-canonical and malformed strings. Distinct = distinct op lines; non-trivial = at least one setter call or a text value.",
+        false,
+        serde_json::json!({}),
+    );
 }
